@@ -14,7 +14,7 @@ from bctmc.tally import Tally
 from bctmc import dtypes
 
 PROPERTY = 'C08'
-RULE = ('element types: every routine also on int64 / int32 / uint8 / bool copies of all 3-node digraphs over {0,1} and {0,1,2}, 4-node graphs over {0,1,2}, 5-node binary graphs (same values as for float64; integers must not raise, a boolean matrix may be rejected with TypeError); every free tree on 8-9 nodes under the scan orders of bctmc/trees.py (3354 labelled trees, 0/1); the structured 7-10 node family of bctmc/named.py (binary, lengths {1,2},{1,2,3}, near-tie) and all binary digraphs n<=4 and graphs n<=5; lengths {1,2} on 4-node graphs and 3-node digraphs, {1,2,3} and the near-tie alphabet {1,2,2+2^-20} on 3-node '
+RULE = ('on the same families: self-connections on the diagonal change nothing; element types: every routine also on int64 / int32 / uint8 / bool copies of all 3-node digraphs over {0,1} and {0,1,2}, 4-node graphs over {0,1,2}, 5-node binary graphs (same values as for float64; integers must not raise, a boolean matrix may be rejected with TypeError); every free tree on 8-9 nodes under the scan orders of bctmc/trees.py (3354 labelled trees, 0/1); the structured 7-10 node family of bctmc/named.py (binary, lengths {1,2},{1,2,3}, near-tie) and all binary digraphs n<=4 and graphs n<=5; lengths {1,2} on 4-node graphs and 3-node digraphs, {1,2,3} and the near-tie alphabet {1,2,2+2^-20} on 3-node '
         'digraphs and binary graphs n=6 (thorough: lengths {1,2} on all 4-node digraphs and 5-node graphs); non-trivial = '
         'graph with a source-target pair joined by >= 2 distinct shortest paths, or with an unreachable ordered pair while '
         'some pair is >= 2 hops apart')
@@ -107,7 +107,7 @@ def check_case(t, X, case, binary):
 
 def work(unit):
     if unit[0] == 'etype':
-        return dtypes.work_unit(PROPERTY, ETYPE_FUNCS, unit)
+        return dtypes.work_unit(PROPERTY, ETYPE_FUNCS, unit, selfloop_invariant=('betweenness_bin', 'betweenness_wei', 'edge_betweenness_bin', 'edge_betweenness_wei'))
     name, a, b = unit
     t = Tally(PROPERTY)
     if name in NAMED:
